@@ -125,7 +125,8 @@ def _col_values(kind, nullmode, n, rng, extra):
 
 
 PART_POOLS = {
-    'pstr': ['a', 'b', 'xy', 'x', 'Z z'],
+    'pstr': ['a', 'b', 'xy', 'x', 'Z z', 'A#1', '50%', "it's", 'q?',
+             '[x]', 'a^b', 'é'],
     'pnum': ['1', '02', '3.5', '10'],         # numeric-looking text
     'pint': [0, 1, 7, -3, 12],
     'pbool': [True, False],
@@ -136,6 +137,13 @@ PART_POOLS = {
 
 
 def part_series(kind, vals):
+    # None = missing partition key (groupby drops such rows: documented);
+    # int and bool columns cannot hold one
+    if kind in ('pint', 'pbool'):
+        vals = [v for v in vals]
+        assert None not in vals
+    if kind == 'pfloat':
+        vals = [float('nan') if v is None else v for v in vals]
     if kind == 'pts':
         return pd.Series(pd.to_datetime(vals, format='ISO8601')).astype('datetime64[ns]')
     if kind == 'pint':
@@ -162,11 +170,27 @@ def build_frame(spec):
             continue
         rng = random.Random(vseed)
         data[name] = _col_values(kind, nullmode, n, rng, extra)
-    for name, (kind, choices, pseed) in (spec.get('part') or {}).items():
+    for name, pspec in (spec.get('part') or {}).items():
+        kind, choices, pseed = pspec[:3]
+        pnull = pspec[3] if len(pspec) > 3 else 0
         rng = random.Random(pseed)
         vals = [rng.choice(choices) for _ in range(n)]
+        if pnull and kind not in ('pint', 'pbool'):
+            nrng = random.Random(pseed + 1)
+            # row 0 keeps its key: a frame made only of key-less rows writes
+            # nothing, and a dataset created from one has no partitioning
+            vals = [None if i and nrng.random() < pnull else v
+                    for i, v in enumerate(vals)]
         data[name] = part_series(kind, vals)
+    if spec.get('index'):
+        # a written (non-range) index: unique per row over the whole history
+        kind = spec['index']
+        u = np.arange(n, dtype='int64') + spec['batch'] * 10**6
+        data['k'] = pd.Series(u * 3 + 1) if kind == 'i64' else \
+            pd.Series(['r%d' % x for x in u], dtype='object')
     order = spec.get('order') or list(data)
+    if spec.get('index') and 'k' not in order:
+        order = list(order) + ['k']
     df = pd.DataFrame({k: data[k] for k in order})
     if n == 0:
         # keep dtypes for empty frames
